@@ -107,6 +107,7 @@ func c04(r *ev.Result, tier string) {
 	/* The HTTP seam: the same clauses through the real handlers over TLS. */
 	c04HTTP(r)
 	quietSpell(r, "C04")
+	c04ManyShells(r, 1100)
 	/* The real binary under every boolean flag: three shells in a row. */
 	{
 		base := ev.Scratch("c04-")
